@@ -47,3 +47,127 @@ Theorem C09_taint_fuel_suffices :
     (exists r, multi_step_taint m x = Ok r) /\ (exists r, multi_step_constraint m x = Ok r).
 Proof. exact taint_fuel_suffices. Qed.
 Print Assumptions C09_taint_fuel_suffices.
+
+(* ---------------------------------------------------------------------------
+   Instance: the mirror of the analysis over the SSA execution semantics of Spec.SsaEffects.
+   --------------------------------------------------------------------------- *)
+Require Import Spec.SsaEffects Proofs.SideEffectProofs.
+
+(* Every read -> written pair of an executed assignment is a single taint step of the mirror
+   of run_taint_analysis (whatever the branch regions [br] are). *)
+Theorem C09_model_taint_has_data_edges :
+  forall (V : Type) (sem_num : Z -> V) (sem_infix : infix_op -> V -> V -> V) (sem_prefix : prefix_op -> V -> V)
+    (sem_switch : V -> V -> V -> V) (sem_call : ident -> list V -> V) (sem_array : list V -> V)
+    (sem_access : V -> list (access V) -> V) (sem_update : V -> list (access V) -> V -> V)
+    (sem_phi : list pcT -> list (vname * V) -> V) (sem_undef : V) (truthy : V -> bool)
+    (g : cfg) (ment : stmt -> bool) (br : list (N * (list N * list N))) (r x : vname),
+    data_edge vname V pcT
+      (ssa_prog V sem_num sem_infix sem_prefix sem_switch sem_call sem_array sem_access sem_update sem_phi
+                sem_undef truthy g ment) r x ->
+    In (r, x) (t_edges (run_taint_analysis g br)).
+Proof. exact model_taint_has_data_edges. Qed.
+Print Assumptions C09_model_taint_has_data_edges.
+
+(* Every name whose value is observed by an effect (branch decisions; dimensions, returns, asserts;
+   constraints mentioning an input/output signal; values assigned to input/output signals) is in the
+   sink set of the mirror of run_side_effect_analysis. *)
+Theorem C09_model_sinks_cover_required :
+  forall (V : Type) (sem_num : Z -> V) (sem_infix : infix_op -> V -> V -> V) (sem_prefix : prefix_op -> V -> V)
+    (sem_switch : V -> V -> V -> V) (sem_call : ident -> list V -> V) (sem_array : list V -> V)
+    (sem_access : V -> list (access V) -> V) (sem_update : V -> list (access V) -> V -> V)
+    (sem_phi : list pcT -> list (vname * V) -> V) (sem_undef : V) (truthy : V -> bool)
+    (g : cfg) (ment : stmt -> bool) (br : list (N * (list N * list N))),
+    ment_sound g ment ->
+    exported_targets_declared g = true ->
+    forall snk : list vname,
+    sinks g (t_edges (run_taint_analysis g br)) (run_constraint_analysis g) = Ok snk ->
+    forall n : vname,
+    required_sink vname V pcT
+      (ssa_prog V sem_num sem_infix sem_prefix sem_switch sem_call sem_array sem_access sem_update sem_phi
+                sem_undef truthy g ment) n ->
+    In n snk.
+Proof. exact model_sinks_cover_required. Qed.
+Print Assumptions C09_model_sinks_cover_required.
+
+(* CS0008: a `no side effect` claim of the mirror about a variable or a parameter is true: in every
+   execution (all operator/call/array/phi meanings, all initial stores, all histories, all prefixes),
+   replacing every value assigned to the flagged SSA name, and its initial value, changes no effect. *)
+Theorem C09_noninterference :
+  forall (V : Type) (sem_num : Z -> V) (sem_infix : infix_op -> V -> V -> V) (sem_prefix : prefix_op -> V -> V)
+    (sem_switch : V -> V -> V -> V) (sem_call : ident -> list V -> V) (sem_array : list V -> V)
+    (sem_access : V -> list (access V) -> V) (sem_update : V -> list (access V) -> V -> V)
+    (sem_phi : list pcT -> list (vname * V) -> V) (sem_undef : V) (truthy : V -> bool)
+    (g : cfg) (br : list (N * (list N * list N))) (ment : stmt -> bool) (res : result) (f : finding),
+    ment_sound g ment ->
+    exported_targets_declared g = true ->
+    run_side_effect_analysis g br = Ok res ->
+    In f (r_findings res) ->
+    f_kind f = FVarNoSideEffect \/ f_kind f = FParamNoSideEffect ->
+    forall pr',
+      perturbed vname V pcT (f_var f)
+        (ssa_prog V sem_num sem_infix sem_prefix sem_switch sem_call sem_array sem_access sem_update sem_phi
+                  sem_undef truthy g ment) pr' ->
+    forall s s' : vname -> V, (forall y, y <> f_var f -> s y = s' y) ->
+    forall h pc n,
+      run vname V pcT vname_eq_dec
+        (ssa_prog V sem_num sem_infix sem_prefix sem_switch sem_call sem_array sem_access sem_update sem_phi
+                  sem_undef truthy g ment) n (h, pc, s)
+      = run vname V pcT vname_eq_dec pr' n (h, pc, s').
+Proof. exact noninterference_of_claims. Qed.
+Print Assumptions C09_noninterference.
+
+(* CS0006 / CS0007: a `value never read` / `parameter never read` claim about a name that is not an
+   input or output signal is true in the same sense. *)
+Theorem C09_noninterference_never_read :
+  forall (V : Type) (sem_num : Z -> V) (sem_infix : infix_op -> V -> V -> V) (sem_prefix : prefix_op -> V -> V)
+    (sem_switch : V -> V -> V -> V) (sem_call : ident -> list V -> V) (sem_array : list V -> V)
+    (sem_access : V -> list (access V) -> V) (sem_update : V -> list (access V) -> V -> V)
+    (sem_phi : list pcT -> list (vname * V) -> V) (sem_undef : V) (truthy : V -> bool)
+    (g : cfg) (br : list (N * (list N * list N))) (ment : stmt -> bool) (res : result) (f : finding),
+    exported_targets_declared g = true ->
+    csig_on_signals g = true ->
+    run_side_effect_analysis g br = Ok res ->
+    In f (r_findings res) ->
+    f_kind f = FUnusedVar \/ f_kind f = FUnusedParam ->
+    ~ In (f_var f) (exported_signals g) ->
+    forall pr',
+      perturbed vname V pcT (f_var f)
+        (ssa_prog V sem_num sem_infix sem_prefix sem_switch sem_call sem_array sem_access sem_update sem_phi
+                  sem_undef truthy g ment) pr' ->
+    forall s s' : vname -> V, (forall y, y <> f_var f -> s y = s' y) ->
+    forall h pc n,
+      run vname V pcT vname_eq_dec
+        (ssa_prog V sem_num sem_infix sem_prefix sem_switch sem_call sem_array sem_access sem_update sem_phi
+                  sem_undef truthy g ment) n (h, pc, s)
+      = run vname V pcT vname_eq_dec pr' n (h, pc, s').
+Proof. exact noninterference_of_unused_claims. Qed.
+Print Assumptions C09_noninterference_never_read.
+
+(* ---------------------------------------------------------------------------
+   The hypotheses are satisfiable, and the repaired defect: `var x = in0 + 1; x === 5;`
+   --------------------------------------------------------------------------- *)
+Definition w_in0 : vname := {| vn_name := [105; 110; 48]%N; vn_suffix := None; vn_version := None |}.
+Definition w_x0 : vname := {| vn_name := [120]%N; vn_suffix := None; vn_version := Some 0%N |}.
+Definition w_m (a b : N) : meta := {| m_start := a; m_end := b; m_file := Some 0%N |}.
+Definition w_cfg : cfg :=
+  {| c_kind := KTemplate; c_params := [];
+     c_decls := [(w_in0, TSigIn); (w_x0, TLocal)];
+     c_blocks := [ {| b_index := 0; b_depth := 0;
+                      b_stmts := [ SDecl (w_m 17 33) [w_in0] TSigIn [];
+                                   SDecl (w_m 37 52) [w_x0] TLocal [];
+                                   SSubst (w_m 37 52) w_x0 OpVar
+                                     (EInfix IAdd (EVar w_in0 know0) (ENum 1 know0) know0) None (Some TLocal);
+                                   SCeq (w_m 56 63) (EVar w_x0 know0) (ENum 5 know0) ];
+                      b_preds := []; b_succs := [] |} ] |}.
+
+Example C09_wf_satisfiable : ssa_wf_b w_cfg = true.
+Proof. vm_compute. reflexivity. Qed.
+
+(* the mirror of the code before commit 7b80e23 claimed that x has no side effect; the current one does not *)
+Example C09_single_name_constraint_old_claimed :
+  omap (fun r => map (fun f => (f_kind f, f_var f)) (filter is_variable_claim (r_findings r)))
+       (run_side_effect_analysis_old w_cfg []) = Ok [(FVarNoSideEffect, w_x0)].
+Proof. vm_compute. reflexivity. Qed.
+Example C09_single_name_constraint_repaired :
+  omap (fun r => filter is_variable_claim (r_findings r)) (run_side_effect_analysis w_cfg []) = Ok [].
+Proof. vm_compute. reflexivity. Qed.
